@@ -247,6 +247,9 @@ def inline_new_helpers(tree: ast.Module, known: set) -> int:
             continue
         if fn.args.vararg or fn.args.kwarg:
             continue
+        if any(isinstance(x, ast.Name) and x.id == name and isinstance(x.ctx, ast.Load)
+               and cls is not None for x in ast.walk(tree)):
+            continue        # aliased in the class body: not a plain helper
         cands[name] = (qual, fn, owner, cls, kind, payload, 'staticmethod' in decos)
     if not cands:
         return 0
@@ -435,8 +438,8 @@ def inline_new_helpers(tree: ast.Module, known: set) -> int:
                 continue
             if isinstance(x, ast.Attribute) and x.attr == name:
                 still = True
-            if isinstance(x, ast.Name) and x.id == name and cls is None:
-                still = True
+            if isinstance(x, ast.Name) and x.id == name and isinstance(x.ctx, ast.Load):
+                still = True        # e.g. a class-level alias `hook = _helper`
         inside = any(True for x in ast.walk(fn) for _ in ())   # noqa: placeholder
         # references from inside the helper itself do not count (excluded: not recursive)
         refs_inside = sum(1 for x in ast.walk(fn) if (isinstance(x, ast.Attribute) and x.attr == name))
@@ -487,6 +490,28 @@ def _is_barrier(x, expr_names):
         return True
     if isinstance(x, ast.AugAssign):
         return True
+    return False
+
+
+def _may_change_self(x) -> bool:
+    """A method call on self / super() / cls, a call that passes self along, or an await (other
+    tasks run): afterwards an attribute of self may denote something else."""
+    if isinstance(x, (ast.Await, ast.Yield, ast.YieldFrom)):
+        return True
+    if isinstance(x, ast.Call) and not _is_pure_call(x) and not is_logging_call(x):
+        f = x.func
+        root = f
+        while isinstance(root, ast.Attribute):
+            root = root.value
+        if isinstance(root, ast.Name) and root.id in ('self', 'cls'):
+            return True
+        if isinstance(root, ast.Call) and isinstance(root.func, ast.Name) and root.func.id == 'super':
+            return True
+        for a in list(x.args) + [k.value for k in x.keywords]:
+            if isinstance(a, ast.Name) and a.id == 'self':
+                return True
+            if isinstance(a, ast.Starred) and isinstance(a.value, ast.Name) and a.value.id == 'self':
+                return True
     return False
 
 
@@ -569,7 +594,8 @@ def inline_new_locals(fn, ref_names, limit: int = 8) -> int:
                                 break
                             continue
                         if _is_barrier(x, expr_names) and not (
-                                relaxed and not (isinstance(x, ast.Name) and x.id in expr_names)):
+                                relaxed and not (isinstance(x, ast.Name) and x.id in expr_names)
+                                and not (not locals_only and _may_change_self(x))):
                             ok = False
                             break
                     if not ok:
@@ -582,7 +608,8 @@ def inline_new_locals(fn, ref_names, limit: int = 8) -> int:
                                 in_body += list(ast.walk(lp.test))
                             if any(any(n is l for n in in_body) for l in loads) and \
                                     any(_is_barrier(z, expr_names) and not (
-                                        relaxed and not (isinstance(z, ast.Name) and z.id in expr_names))
+                                        relaxed and not (isinstance(z, ast.Name) and z.id in expr_names)
+                                        and not (not locals_only and _may_change_self(z)))
                                         for z in ast.walk(lp)):
                                 ok = False
                     if not ok:
